@@ -263,7 +263,25 @@ func checkRandom(ss *symset, blob []byte, ex *expect) {
 	})
 }
 
+// shortReader hands out at most n bytes per Read: the way a pipe or an HTTP
+// body delivers a stream in pieces of any size.
+type shortReader struct {
+	r io.Reader
+	n int
+}
+
+func (s shortReader) Read(p []byte) (int, error) {
+	if len(p) > s.n {
+		p = p[:s.n]
+	}
+	return s.r.Read(p)
+}
+
 func openStream(ss *symset, stage string, tmp string, blob []byte) *zipslicer.Directory {
+	return openStreamChunked(ss, stage, tmp, blob, 0)
+}
+
+func openStreamChunked(ss *symset, stage string, tmp string, blob []byte, chunk int) *zipslicer.Directory {
 	if err := os.WriteFile(tmp, blob, 0o600); err != nil {
 		panic(err)
 	}
@@ -277,7 +295,11 @@ func openStream(ss *symset, stage string, tmp string, blob []byte) *zipslicer.Di
 		ss.refuse(stage+"-ziptotar", err)
 		return nil
 	}
-	d, err := zipslicer.ReadZipTar(bytes.NewReader(tarbuf.Bytes()))
+	var src io.Reader = bytes.NewReader(tarbuf.Bytes())
+	if chunk > 0 {
+		src = shortReader{src, chunk}
+	}
+	d, err := zipslicer.ReadZipTar(src)
 	if err != nil {
 		ss.refuse(stage+"-readziptar", err)
 		return nil
@@ -305,6 +327,29 @@ func checkStream(ss *symset, tmp string, blob []byte, ex *expect) {
 			}
 		}
 	})
+	// the same single pass with the stream arriving in small pieces: what is
+	// read must not depend on where the pieces end
+	chunks := []int{1, 7}
+	if len(blob) > 128<<10 {
+		chunks = []int{4093}
+	}
+	for _, chunk := range chunks {
+		stage := fmt.Sprintf("stream-reads-of-%d", chunk)
+		ss.guard(stage, func() {
+			d := openStreamChunked(ss, stage, tmp, blob, chunk)
+			if d == nil {
+				return
+			}
+			if !compareFields(ss, stage, d, ex) {
+				return
+			}
+			for i, f := range d.File {
+				if !readMember(ss, stage, i, f, ex) {
+					return
+				}
+			}
+		})
+	}
 	ss.guard("stream-dump", func() {
 		d := openStream(ss, "stream", tmp, blob)
 		if d == nil || len(d.File) != len(ex.view.Members) {
